@@ -51,7 +51,7 @@ def loaded_names(step_pubkeys, keystore):
     return out
 
 
-def gen_case(rng, root, gpg):
+def gen_case(rng, root, gpg, case_no=None):
     ch = scen.gen_chain(rng, root, n_steps=rng.choice([1, 2]), n_insp=rng.choice([0, 1]),
                         thresholds=(1,), max_funcs=1, fmt_mode="mixed")
     fi = rng.randrange(len(ch.steps))
@@ -103,8 +103,10 @@ def gen_case(rng, root, gpg):
     names = loaded_names(pubkeys, keystore) + [stranger.keyid]
     nfiles = rng.randrange(1, 7)
     used_names = set()
-    for _ in range(nfiles):
+    for fno in range(nfiles):
         signer = rng.choice(signers_all if rng.random() < 0.25 else signers)
+        if gpg and case_no is not None and fno == 0:
+            signer = gk[case_no % len(gk)]        # (every run has gpg-signed links that were altered after signing)
         r = rng.random()
         if r < 0.8:
             kid = signer.keyid
@@ -114,6 +116,8 @@ def gen_case(rng, root, gpg):
             continue
         used_names.add(kid[:8])
         tamper = rng.choice(TAMPERS)
+        if gpg and case_no is not None and fno == 0:
+            tamper = ["content", "sig", "unsigned"][(case_no // len(gk)) % 3]
         fmt = "metablock" if signer.kind == "gpg" else rng.choice(["metablock", "dsse"])
         if tamper == "other_family" and fmt == "dsse":
             tamper = "sig"
@@ -185,12 +189,14 @@ def gpg_pair_grid():
         for a2 in ids:
             if a1 != a2:
                 for extra in (False, True):
-                    out.append(("pair", a1, a2, extra))
+                    for alias in (False, True):
+                        out.append(("pair", a1, a2, extra, alias))
     return out
 
 
 def gen_pair_case(rng, root, combo):
-    _tag, a1, a2, extra = combo
+    _tag, a1, a2, extra = combo[:4]
+    alias_flag = combo[4] if len(combo) > 4 else None
     # the focus step is the last of 1-3 steps: the earlier ones are carried out by other functionaries, who must
     # not count towards the focus step's threshold
     ch = scen.gen_chain(rng, root, n_steps=rng.choice([1, 2, 3]), n_insp=0, thresholds=(1,), max_funcs=2, fmt_mode="mixed")
@@ -221,7 +227,7 @@ def gen_pair_case(rng, root, combo):
         files.append({"name_kid": pk.keyid[:8], "signer": pk.keyid[:8], "signer_kind": pk.kind, "tamper": None, "fmt": "metablock",
                       "wrong_name": False, "counts_for": pk.keyid})
         mains.add(pk.keyid)
-    alias_store = rng.random() < 0.35
+    alias_store = alias_flag if alias_flag is not None else rng.random() < 0.35
     if alias_store:
         # the key store lists the master under another spelling of its id (upper case, as gpg prints fingerprints); the
         # step authorises it in that spelling and its link lies under that spelling: still ONE functionary
@@ -277,10 +283,10 @@ def strip_bad(ch, desc):
     return ch2
 
 
-def one_case(rng, res, gpg, combo=None):
+def one_case(rng, res, gpg, combo=None, case_no=None):
     root = scen.new_root()
     try:
-        ch, desc = gen_grid_case(rng, root, combo) if combo else gen_case(rng, root, gpg)
+        ch, desc = gen_grid_case(rng, root, combo) if combo else gen_case(rng, root, gpg, case_no)
         scn = scen.build(ch, root, rng)
         scn.params = vcommon.pick_params(rng, desc)
         nbad = sum(1 for f in desc["files"] if not f["counts_for"])
@@ -329,7 +335,7 @@ def shard(seed, idx, n, tier):
     rng = core.rng_for(seed, "c02", idx)
     ngpg = (n // 8) if W.gpg_available() else 0
     for j in range(n):
-        one_case(rng, res, gpg=j < ngpg)
+        one_case(rng, res, gpg=j < ngpg, case_no=idx * n + j)
     if W.gpg_available():
         grid = gpg_grid() + gpg_pair_grid()
         for g in range(idx, len(grid), 16):
